@@ -66,7 +66,16 @@ func (c *MemoryCache) Store(k []byte, storedTime, expireTime time.Time, v []byte
 
 	ttl := time.Until(expireTime)
 	if setNX {
-		c.backend.SetIfAbsent(ks, e, ttl)
+		if !c.backend.SetIfAbsent(ks, e, ttl) {
+			// The backend keeps an expired entry until it gets around to
+			// cleaning it up, and such a leftover makes SetIfAbsent fail.
+			// Only a live entry may win over e.
+			if _, live := c.backend.Get(ks); !live {
+				c.backend.Set(ks, e, ttl)
+			} else {
+				releaseEntry(e)
+			}
+		}
 	} else {
 		c.backend.Set(ks, e, ttl)
 	}
